@@ -24,8 +24,8 @@ Source: `include/dmlc/threadediter.h`.  Conventions of DESIGN.md section 2 "Conc
 * Most general client: every `…Start` event is enabled whenever the documented contract allows the call.
 * The data source is an arbitrary script `src pass idx`, `rew pass`.
 * Ghost history: `produced delivered pass pidx srcEnded thrown allocated maxLent lost freed rewCalls
-  bfPosted bfPass ret`.  `produced`/`delivered` are the history of the *current pass* (reset when the pass is
-  abandoned: rewind, failure during a pending rewind, Destroy).
+  bfPosted bfPass ret`.  `produced`/`delivered`/`pidx`/`srcEnded` are the history of the *current pass* (reset
+  when the pass is abandoned and its queued items are dropped: rewind, failure during a pending rewind, Destroy).
 * `rk` = "BeforeFirst re-checks the recorded exception once it holds `mutex_`" (`Gen.TIter.bfRecheck`, read
   from the source: false for the pinned code, true with fixes/C09-1.diff).
 -/
@@ -196,11 +196,12 @@ def cells (s : State) : List Nat :=
 
 def endCall (s : State) (r : Ret) : State := { s with ret := r, outCall := false }
 
+def wokenLoc : PLoc → PLoc
+  | .waitSet => .woken
+  | l => l
+
 /-- `producer_cond_.notify_one()` (the producer is the only thread that ever waits on it) -/
-def wakeProducer (s : State) : State :=
-  match s.ploc with
-  | .waitSet => { s with ploc := .woken }
-  | _ => s
+def wakeProducer (s : State) : State := { s with ploc := wokenLoc s.ploc }
 
 /-- `consumer_cond_.notify_all()` -/
 def wakeConsumers (s : State) : State :=
@@ -259,9 +260,10 @@ def pPublish (s : State) : State :=
 def pCatch (s : State) : State :=
   if cIsRewind s.sig then
     { s with free := s.free ++ qcells s, queue := [], produceEnd := true, processed := true, ploc := .notifyExit,
-             produced := [], delivered := [] }
+             produced := [], delivered := [], pidx := 0, srcEnded := false }
   else if cIsProduce s.sig then
-    { s with produceEnd := true, ploc := if cNotify s.nwaitC then .notifyExit else .exited }
+    if cNotify s.nwaitC then { s with produceEnd := true, ploc := .notifyExit }
+    else { s with produceEnd := true, ploc := .exited }
   else { s with ploc := .exited }
 
 def prodStep (P : Params) (s : State) : Option State :=
@@ -298,10 +300,15 @@ def nTake (s : State) : State :=
 def bAfter (s : State) : State :=
   { s with processed := false, xloc := if bNotify s.nwaitP s.produceEnd then .bNotify else .bExc1 }
 
+/-- :210-213 of BeforeFirst: the cell of the Next()/Value() interface goes back to the free list -/
+def bOut (s : State) : State :=
+  { s with free := if bHasOut (outCode s.outData) then s.free ++ (optList s.outData).map (·.1) else s.free,
+           outData := if bHasOut (outCode s.outData) then none else s.outData }
+
 /-- Destroy's clean-up (:297-311) -/
 def cleanup (s : State) : State :=
   { s with freed := s.freed ++ s.free ++ qcells s ++ (optList s.outData).map (·.1), free := [], queue := [],
-           outData := none, produced := [], delivered := [] }
+           outData := none, produced := [], delivered := [], pidx := 0, srcEnded := false }
 
 def xStep (rk : Bool) (s : State) : Option State :=
   match s.xloc with
@@ -309,25 +316,20 @@ def xStep (rk : Bool) (s : State) : Option State :=
   | .bExc0 => some (if s.exc then { s with xloc := .idle, ret := .err } else { s with xloc := .bLock })
   | .bLock =>
     if rk && s.exc then some { s with xloc := .idle, ret := .err }
+    else if bIsDestroyed s.sig then some { bOut s with xloc := .idle, ret := .ok }
+    else if !bProcCheck s.processed then
+      some { bOut s with sig := kBeforeFirst, bfPosted := s.bfPosted + 1, xloc := .idle, ret := .errCheck }
     else
-      let s1 : State :=
-        if bHasOut (outCode s.outData) then
-          { s with free := s.free ++ (optList s.outData).map (·.1), outData := none }
-        else s
-      if bIsDestroyed s1.sig then some { s1 with xloc := .idle, ret := .ok }
-      else
-        let s2 := { s1 with sig := kBeforeFirst, bfPosted := s1.bfPosted + 1 }
-        if !bProcCheck s2.processed then some { s2 with xloc := .idle, ret := .errCheck }
-        else
-          let s3 := if bPostNotify s2.nwaitP then wakeProducer s2 else s2
-          if bWaitPred s3.processed then some (bAfter s3) else some { s3 with xloc := .bWait }
+      let s3 : State :=
+        { bOut s with sig := kBeforeFirst, bfPosted := s.bfPosted + 1,
+                      ploc := if bPostNotify s.nwaitP then wokenLoc s.ploc else s.ploc }
+      if bWaitPred s.processed then some (bAfter s3) else some { s3 with xloc := .bWait }
   | .bWait => none
   | .bWoken => if bWaitPred s.processed then some (bAfter s) else some { s with xloc := .bWait }
   | .bNotify => some { wakeProducer s with xloc := .bExc1 }
   | .bExc1 => some { s with xloc := .idle, ret := if s.exc then .err else .ok }
   | .dLock =>
-    let s1 := { s with sig := kDestroy }
-    some { (if dNotify s1.nwaitP then wakeProducer s1 else s1) with xloc := .dJoin }
+    some { s with sig := kDestroy, ploc := if dNotify s.nwaitP then wokenLoc s.ploc else s.ploc, xloc := .dJoin }
   | .dJoin =>
     match s.ploc with
     | .exited => some { cleanup { s with joined := true } with xloc := .idle, ret := .ok }
@@ -386,7 +388,7 @@ def stepR (rk : Bool) (P : Params) (s0 : State) (e : Event) : Option State :=
       some { s with lent := s.lent.erase c, recycling := c :: s.recycling, r0 := s.r0 + 1 }
     else none
   | .rStartOut =>
-    if s.xloc = .idle ∧ s.outCall = false ∧ busy s = 0 ∧ s.outData.isSome then
+    if s.xloc = .idle ∧ s.outCall = false ∧ busy s = 0 ∧ s.outData ≠ none then
       some { s with outCall := true, r0 := s.r0 + 1 }
     else none
   | .rExc c =>
